@@ -15,7 +15,7 @@ class C19(Prop):
     LONG_BIAS = 0.5
     BACKENDS = ("file", "file", "memory")
     WEIGHTS = {"page": 4, "pages": 3, "links": 3, "batch": 3, "again": 4, "create": 2, "delete": 1, "addprefix": 2,
-               "rmprefix": 1, "move": 1, "rule": 2, "unrule": 1, "reopen": 1, "clear": 1}
+               "rmprefix": 1, "move": 1, "rule": 2, "unrule": 1, "reopen": 1, "clear": 1, "recreate": 1}
     QUICK = (40, 18)
     THOROUGH = (200, 40)
     TECHNIQUE = ("stateful property-based testing (Hypothesis) against a ledger oracle; thorough tier adds coverage-guided "
@@ -31,7 +31,7 @@ class C19(Prop):
     def after_op(self, case, op, out, pre):
         ctx, led = case.ctx, case.led
         a, b = case.idx.raw()
-        if op[0] not in ("clear",) and len(led.closure) == pre["closure"] and len(a) != pre["trie_len"]:
+        if op[0] not in ("clear", "recreate") and len(led.closure) == pre["closure"] and len(a) != pre["trie_len"]:
             ctx.fail("regrowth", "request %r named only known LRUs but the trie store grew from %d to %d bytes"
                      % (op[0], pre["trie_len"], len(a)), case)
         if len(a) % 128 or len(b) % 16:
